@@ -3,8 +3,11 @@ import itertools
 
 import numpy as np
 
+from .. import gen
 from ..monitors import search_mon
 from ..monitors.contracts import Installer, Slot
+
+from . import _jobs  # noqa: E402
 
 PROPERTY = "C10"
 LEVEL = "exploration"
@@ -24,7 +27,7 @@ LEVEL_TEXT = ("Post-conditions on the four real search functions, judged against
 LEVEL_NOTE = ("Trusts the 15-line definitional oracle (models/search.py) and CPython/NumPy comparison semantics; "
               "inputs restricted to the property's quantifier (strictly increasing array, non-empty sorted queries).")
 TECHNIQUE = "runtime post-condition monitor on the real functions vs definitional oracle; exhaustive small scope + random"
-REQUIRED_MONITORS = ["search_post:lower", "search_post:higher", "search_post:closest"]
+REQUIRED_MONITORS = ["threads:search", "search_post:lower", "search_post:higher", "search_post:closest"]
 ASSUMPTIONS = ["queries non-empty and non-decreasing, array strictly increasing (the property's quantifier)",
                "empty query lists are outside the statement ('each query') and are not exercised"]
 LATTICE = [v / 2.0 for v in range(-2, 16)]
@@ -33,6 +36,10 @@ NPARTS = 16
 
 
 def plan(tier, seed):
+    return _plan(tier, seed) + _jobs.plan(tier)
+
+
+def _plan(tier, seed):
     specs = [{"kind": "exhaustive", "part": p, "parts": NPARTS} for p in range(NPARTS)]
     n = 40000 if tier == "quick" else 1600000
     per = n // NPARTS
@@ -142,6 +149,17 @@ def gen_random(rng):
         qs = x[picks] + rng.choice([0.0, 0.2, -0.2, 0.5, 0.7], k) * 0.5
         qs[0], qs[-1] = min(qs[0], x[0] - 1.0), max(qs[-1], x[-1] + 1.0)
         return x, np.sort(qs)
+    if style == 5 and rng.integers(0, 2):
+        # narrow SIGNED integer arrays that use the whole range of their type: the distance between a query and an element
+        # does not fit the type (int8 50 - (-100)), nor does the sum of two elements
+        dt = [np.int8, np.int16, np.int32][int(rng.integers(0, 3))]
+        lo, hi = int(np.iinfo(dt).min), int(np.iinfo(dt).max)
+        k = int(min(n, 12))
+        x = np.unique(np.concatenate([[lo + int(rng.integers(0, 30)), hi - int(rng.integers(0, 30))],
+                                      rng.integers(lo, hi, max(k - 2, 0))])).astype(dt)
+        qs = np.sort(rng.integers(lo, hi, int(rng.integers(1, 9))))
+        qs = qs.astype(dt) if rng.integers(0, 2) else qs.astype(np.int64)
+        return x, qs
     if style == 5:
         # unsigned integer arrays with integer queries (differences of unsigned values wrap around instead of going negative)
         dt = [np.uint8, np.uint16, np.uint32, np.uint64][int(rng.integers(0, 4))]
@@ -213,7 +231,7 @@ def run_random_case(ctx, sau, kind, idx):
     qq = qs if cont != 2 else [v.item() for v in qs]
     form = int(rng.integers(0, 3))
     case = ctx.case_id(kind, idx, strategy=strategy, fill=fill, dispatch=via)
-    _one(ctx, sau, case, xx, qq, strategy, fill, via, form)
+    _one(ctx, sau, case, xx, qq, gen.fresh_str(rng, strategy), fill, via, form)
     if len(x) == 1 or np.any((qs > x[0]) & (qs < x[-1])):
         ctx.nontriv("rnd", idx, strategy, fill)
     ctx.count("random:%s:%s" % (strategy, "fill" if fill else "nofill"))
@@ -222,6 +240,8 @@ def run_random_case(ctx, sau, kind, idx):
 
 
 def run(ctx, spec):
+    if spec["kind"] == "threads":      # concurrent independent requests vs their sequential answers
+        return _jobs.run(ctx, spec, ["search"])
     if spec["kind"] == "suite":     # the repository's own tests with the search post-conditions attached
         from .. import suite
         suite.run_suite(ctx, ["search:"])
@@ -239,6 +259,8 @@ def run(ctx, spec):
 
 
 def replay(ctx, case):
+    if case["kind"] == "threads":
+        return _jobs.run_case(ctx, ["search"], case["idx"])
     import traffic_weaver.sorted_array_utils as sau
     inst = Installer()
     search_mon.install(inst)
